@@ -262,7 +262,7 @@ func runC03(tier string, seed uint64) int {
 		scratch := filepath.Join(root, "scratch")
 		os.MkdirAll(scratch, 0755)
 		bseed := mix(seed, uint64(b)+303)
-		_, lines, err := genBatchProjects(root, bseed, nProj, "C03")
+		scs, lines, err := genBatchProjects(root, bseed, nProj, "C03")
 		if err != nil {
 			fmt.Println("INCONCLUSIVE:", err)
 			os.RemoveAll(root)
@@ -278,6 +278,19 @@ func runC03(tier string, seed uint64) int {
 			l := lines[k]
 			l.DupOf = k
 			lines = append(lines, l)
+		}
+		// valid lines that write to the log channel while they run: a crop override with an out-of-range value is rejected
+		// with a message and the run carries on (its solo reference is run with the same tokens)
+		for _, k := range []int{1, 4, 6} {
+			if k >= nProj || len(scs[k].Rotation) < 2 {
+				continue
+			}
+			l := lines[k]
+			l.ID = fmt.Sprintf("L%02dc", k)
+			e := scs[k].Rotation[1]
+			l.Tokens = append(append([]string{}, l.Tokens...), "CropFile="+cropParamFileName(e.Crop, e.Variety, scs[k].CropParamYml), "c_MAXAMAX=500")
+			lines = append(lines, l)
+			agg.add("lines_logging_while_valid", 1)
 		}
 		refs := soloReferences(bin, root, lines, scratch, 2, func(sig, msg string) { agg.violate("C03", sig, msg) })
 		for i, rf := range refs {
@@ -325,7 +338,7 @@ func runC03(tier string, seed uint64) int {
 	agg.cov["distinct_completion_orders"] = int64(len(agg.orders))
 	spec := checkSpec{Prop: "C03", Level: "exploration",
 		Rule:   "per batch: generated projects covering the five ET methods, three weather layouts, three groundwater modes, PTF and automatic management, plus the same project with a second result folder and exact duplicate lines; every distinct line is run alone twice in fresh processes (reference hashes, reproducibility), then the whole batch is executed by the real hermes2go built with -race and the verif hooks under schedules = (concurrency 1..16, shuffled line order, GOMAXPROCS 1/2/16, seeded delays at run start / before the result send / at pool access); every line's result files must equal the solo reference, every log id must have exactly one run_start and one run_end event in the trace, the race detector must stay silent; plus a porcupine linearizability check of recorded file-pool histories (in-process, -race). evaluations = batch executions under a schedule; non-trivial = executions in which at least two runs were active at the same time according to the trace",
-		Floors: []string{"line_results_compared", "schedules_concurrency_1", "schedules_concurrency_16", "schedules_with_injected_delays", "solo_reference_runs", "pool_history_operations", "pool_histories_checked"},
+		Floors: []string{"line_results_compared", "schedules_concurrency_1", "schedules_concurrency_16", "schedules_with_injected_delays", "solo_reference_runs", "pool_history_operations", "pool_histories_checked", "lines_logging_while_valid", "lines_with_custom_crop_code"},
 		FloorMin: map[string]int64{"max_simultaneous_runs": 4, "distinct_completion_orders": 3}}
 	return finishCheck(spec, tier, seed, []*CaseResult{agg.toCase("C03", seed)}, agg.inconcl, t0, map[string]interface{}{"race_detector": "go build -race; GORACE=halt_on_error=0 log_path=...; reports deduplicated by outermost frame pair"})
 }
